@@ -368,7 +368,9 @@ impl Workload {
             "Updating {be_id:?} deps from {:?} to {deps:?}",
             be_job.read_access
         );
-        be_job.read_access = deps
+        be_job.read_access = deps;
+        #[cfg(feature = "verif_hooks")]
+        fontdrasil::orchestration::verif::sched("rewrite", &be_id, Vec::new());
     }
 
     fn handle_success(
@@ -418,6 +420,12 @@ impl Workload {
                 .get_mut(&BeWorkIdentifier::Glyf.into())
                 .expect("Glyf has to be pending");
             glyf_loca_job.read_access = glyf_loca_deps.build().into();
+            #[cfg(feature = "verif_hooks")]
+            fontdrasil::orchestration::verif::sched(
+                "rewrite",
+                &AnyWorkId::from(BeWorkIdentifier::Glyf),
+                Vec::new(),
+            );
 
             // Resolve the Access::Unknown for gvar, same race as glyf/loca; see issue #1436
             let mut gvar_deps = AccessBuilder::<AnyWorkId>::new()
@@ -432,6 +440,12 @@ impl Workload {
                 .get_mut(&BeWorkIdentifier::Gvar.into())
                 .expect("Gvar has to be pending");
             gvar_job.read_access = gvar_deps.build().into();
+            #[cfg(feature = "verif_hooks")]
+            fontdrasil::orchestration::verif::sched(
+                "rewrite",
+                &AnyWorkId::from(BeWorkIdentifier::Gvar),
+                Vec::new(),
+            );
         }
 
         if let AnyWorkId::Fe(FeWorkIdentifier::KerningLocations) = success {
@@ -454,6 +468,12 @@ impl Workload {
                 .variant(FeWorkIdentifier::KernInstance(NormalizedLocation::default()))
                 .build()
                 .into();
+            #[cfg(feature = "verif_hooks")]
+            fontdrasil::orchestration::verif::sched(
+                "rewrite",
+                &AnyWorkId::Be(BeWorkIdentifier::GatherIrKerning),
+                Vec::new(),
+            );
         }
 
         if let AnyWorkId::Be(BeWorkIdentifier::GatherIrKerning) = success {
@@ -474,6 +494,12 @@ impl Workload {
                 .variant(FeWorkIdentifier::StaticMetadata)
                 .build()
                 .into();
+            #[cfg(feature = "verif_hooks")]
+            fontdrasil::orchestration::verif::sched(
+                "rewrite",
+                &AnyWorkId::Be(BeWorkIdentifier::GatherBeKerning),
+                Vec::new(),
+            );
         }
 
         if let AnyWorkId::Fe(FeWorkIdentifier::Glyph(glyph_name)) = success {
